@@ -81,7 +81,7 @@ def run_case(case):
         if not model and root != trie.BLANK_NODE_HASH:
             res.fail("empty-not-blank-root", "empty mapping has root %s" % root.hex())
 
-    r = hexlib.HexRunner(res, case["prune"], observe, raw_tie=True)
+    r = hexlib.HexRunner(res, case["prune"], observe, raw_tie=True, reopen=True)
     r.run(case["ops"])
     r.finish_raw(sorted(r.model)[:6])
     # final: body under the root, node-length statistics, order independence on the real code
